@@ -596,6 +596,9 @@ def run(F, rep, tier):
     writer_grammar(F, rep)
     writer_domain_rule(F, rep)
     toplevel_rule(F, rep)
+    # the tree is read from the stream itself: no adapter bounds (take) or extends what the UBJSON reader can see
+    import streamid
+    streamid.slp_rule(F, rep, 'reader.stream')
     order_rule(F, rep)
     absence_rule(F, rep)
     rep.control("token extractor sees marker bytes", write_tokens(F, F.body(SER + "write_utf8")["tir"]["value"])[0] == ("byte", 0x55))
